@@ -1,5 +1,5 @@
 (* C15 — routing table invariant, part C: add_node_to_bucket, every op, every op list. *)
-From Coq Require Import List NArith Bool Lia Permutation.
+From Coq Require Import List NArith ZArith Bool Lia Permutation.
 From LTV.C15 Require Import ParamsGen.
 From LTV.C15 Require Import Model ProofsMid ProofsTableA ProofsTableB.
 Import ListNotations.
@@ -162,16 +162,58 @@ Proof.
   apply tinv_map_bucket; [intros; split; reflexivity|intros; apply ok_set_cache; assumption|assumption].
 Qed.
 
+Lemma node_queried_tinv : forall s id ip, tinv (tb (tab s)) -> tinv (tb (tab (fst (node_queried s id ip)))).
+Proof.
+  intros s id ip T. unfold node_queried.
+  destruct (lookup id (tb (tab s))) as [[k n]|]; [|exact T]. destruct (negb (nip n =? ip)); [exact T|].
+  simpl. apply tinv_map_bucket; [| |assumption].
+  + rng.
+  + intros b Hb. destruct (nseen n =? 0); [destruct (is_good n); [apply ok_touch|]; assumption|].
+    apply ok_touch. apply ok_set_good. assumption.
+Qed.
+
+Lemma query_body_tinv : forall s ip rnd q m, tinv (tb (tab s)) -> tinv (tb (tab (fst (query_body sha s ip rnd q m)))).
+Proof.
+  intros s ip rnd q m T. unfold query_body.
+  destruct (bytes_eqb q s_find_node).
+  { destruct (m_target m) as [tg|]; [|exact T]. destruct (lenN tg <? hs_len); [exact T|].
+    pose proof (closest_tinv (tab s) (be_to_N (firstn idbytes tg)) T) as H.
+    destruct (closest_nodes _ _) as [t' [|c l']]; exact H. }
+  destruct (bytes_eqb q s_get_peers).
+  { destruct (m_ih m) as [h|]; [|exact T]. destruct (lenN h <? hs_len); [exact T|].
+    pose proof (closest_tinv (tab s) (be_to_N (firstn idbytes h)) T) as H.
+    destruct (get_tracker _ _) as [[|p l0]|]; try exact T; destruct (closest_nodes _ _) as [t' [|c l']]; exact H. }
+  destruct (bytes_eqb q s_announce_peer).
+  { destruct (m_ih m) as [h|]; [|exact T]. destruct (lenN h <? hs_len); [exact T|].
+    destruct (m_token m) as [tk|]; [|exact T]. destruct (negb _); [exact T|]. destruct (m_port m) as [z| |]; try exact T.
+    destruct (_ || _); exact T. }
+  destruct (bytes_eqb q s_ping); exact T.
+Qed.
+
+Lemma dgram_tinv : forall s ip rnd m, tinv (tb (tab s)) -> tinv (tb (tab (fst (dgram sha s ip rnd m)))).
+Proof.
+  intros s ip rnd m T. unfold dgram.
+  destruct (m_t m) as [t|]; [|exact T]. destruct (20 <? lenN t); [exact T|].
+  destruct (m_y m) as [[|ty [|? ?]]|]; try exact T.
+  destruct (ty =? 113); [|exact T]. destruct (m_id m) as [idb|]; [|exact T].
+  destruct (lenN idb <? hs_len); [exact T|].
+  generalize (be_to_N (firstn idbytes idb)). intro nid0. destruct (nid0 =? own s); [exact T|].
+  destruct (m_q m) as [q|]; [|exact T].
+  pose proof (query_body_tinv s ip rnd q m T) as H.
+  destruct (query_body sha s ip rnd q m) as [s1 [e|[[tok nodes] vals]]]; cbn [fst snd] in *; [exact H|].
+  apply node_queried_tinv. exact H.
+Qed.
+
 Lemma step_sinv : forall s o, sinv s -> sinv (fst (step sha s o)).
 Proof.
   intros s o T. unfold sinv in *. unfold step. destruct (err s); [exact T|].
-  destruct o; simpl; try exact T.
-  - destruct (id =? own s); [exact T|]. unfold node_queried.
-    destruct (lookup id (tb (tab s))) as [[k n]|]; [|exact T]. destruct (negb (nip n =? ip)); [exact T|].
-    simpl. apply tinv_map_bucket; [| |assumption].
-    + rng.
-    + intros b Hb. destruct (nseen n =? 0); [destruct (is_good n); [apply ok_touch|]; assumption|].
-      apply ok_touch. apply ok_set_good. assumption.
+  destruct o as [ip rnd m|ip|dt|id ip port|id ip port|id ip port|id|secret|ip|tok ip|ih ip port tok|ih ip rnd|target|id|];
+    simpl; try exact T.
+  - pose proof (dgram_tinv s ip rnd m T) as H.
+    destruct (m_y m) as [[|ty [|? ?]]|]; try (destruct (dgram sha s ip rnd m); exact H).
+    destruct ((ty =? 114) || (ty =? 101)); [exact T|]. destruct (dgram sha s ip rnd m); exact H.
+  - destruct (id =? own s); [exact T|]. rewrite (surjective_pairing (node_queried s id ip)). simpl.
+    apply node_queried_tinv. exact T.
   - destruct (id =? own s); [exact T|]. unfold node_replied.
     destruct (lookup id (tb (tab s))) as [[k n]|] eqn:LK.
     + destruct (negb (nip n =? ip)); [exact T|]. simpl.
@@ -193,7 +235,7 @@ Proof.
   - unfold node_invalid. destruct (lookup id (tb (tab s))) as [[k n]|]; [|exact T]. simpl.
     apply tinv_map_bucket; [intros; split; reflexivity|intros; apply ok_remove; assumption|assumption].
   - apply tinv_map; [intros; split; reflexivity|intros; apply ok_housekeeping; assumption|assumption].
-  - destruct (token_valid sha s tok ip); exact T.
+  - destruct (token_valid sha s tok ip); [destruct ((port <? 1) || (65535 <? port))|]; exact T.
   - destruct (get_tracker ih (trackers s)) as [[|p l]|]; try exact T;
       (pose proof (closest_tinv (tab s) ih T) as H; destruct (closest_nodes (tab s) ih) as [t' [|c l']]; exact H).
   - pose proof (closest_tinv (tab s) target T) as H. destruct (closest_nodes (tab s) target) as [t' [|c l']]; exact H.
